@@ -70,6 +70,18 @@ def make_pop(name, date, as_dict):
     else:
         structs = [popgen.CANON["single_parent_1"], popgen.CANON["family_6"], popgen.CANON["three_gen"]]   # incl. more children than any staggered table lists
     P = popgen.compose(structs, "2023-01-01", rnd)   # ages do not depend on the policy date: the caller holds ONE table
+    # fixed facts on which the replayed calls must depend whatever the generator drew: adults below 60 earn regular wages,
+    # the six children of the large family are minors with a Kindergeld claim
+    wages = [2500.0, 1200.0, 4200.0, 800.0, 3100.0]
+    k = 0
+    for q in P:
+        if 18 <= q["alter"] < 60 and not q["kind"]:
+            q.update({"bruttolohn_m": wages[k % len(wages)], "bruttolohn_vorj_m": wages[k % len(wages)], "arbeitsstunden_w": 38.0, "rentner": False, "voll_erwerbsgemind": False, "teilw_erwerbsgemind": False, "jahr_renteneintr": q["geburtsjahr"] + 67})
+            k += 1
+    if name == "p2":
+        kids = [q for q in P if q["p_id_elternteil_1"] == P[len(structs[0])]["p_id"]]
+        for j, q in enumerate(kids):
+            q.update({"alter": 1 + 2 * j, "geburtsjahr": 2023 - (1 + 2 * j), "kind": True, "bruttolohn_m": 0.0, "in_ausbildung": (1 + 2 * j) >= 6, "p_id_kindergeld_empf": P[len(structs[0])]["p_id"]})
     df = gs.build_population(P, "2023-01-01")
     if as_dict:
         d = {c: df[c].copy() for c in df.columns}
@@ -116,7 +128,8 @@ def main():
             envs.append({"params": p, "functions": f, "date": conc["dates"][st["d"]]})
         elif k == "reform":
             g = conc["groups"][st["g"]]
-            perturb_inplace(envs[st["e"] - 1]["params"][g])
+            for g_ in ([g] if isinstance(g, str) else g):     # the abstract group may stand for several real parameter groups
+                perturb_inplace(envs[st["e"] - 1]["params"][g_])
         elif k == "vectorize":
             fnl = conc["rules"][st["f"]]
             fs = envs[st["e"] - 1]["functions"]
